@@ -107,6 +107,9 @@ static void run_box(Ctx& ctx, uint64_t N, const CpuCfg& cfg, uint64_t maxdim, ui
       dense_data(s, mat, a);
       check_case(ctx, mod, s, mat, a, shape_id(s, cfg.name, "dense"), false);
     }
+  // larger shapes (odd / even columns, res_size <,=,> ncols, a_size <,=,> nrows)
+  for (auto& q : std::vector<std::vector<uint64_t>>{{7, 9, 8, 9}, {9, 7, 10, 5}, {1, 12, 1, 11}, {12, 1, 13, 1}, {8, 8, 8, 7}, {5, 11, 5, 9}, {11, 6, 3, 6}, {6, 7, 9, 8}})
+    for (uint64_t asl : {N, N + 3}) { Shape s{N, q[0], q[1], q[2], q[3], asl}; dense_data(s, mat, a); check_case(ctx, mod, s, mat, a, shape_id(s, cfg.name, "dense"), false); }
 }
 
 // complete bilinear basis sweep: a = X^u e_i, M = X^v E_{ij}
@@ -166,10 +169,12 @@ int main(int argc, char** argv) {
   auto cf = cfgs(th);
   if (th) for (uint64_t N : {65536, 1024, 64, 32}) for (auto& c : cf) items.push_back({2, N, c});
   for (uint64_t N : {16, 8, 4, 2}) for (auto& c : cf) items.push_back({0, N, c});
+  if (!th) for (uint64_t N : {64, 32}) for (auto& c : cf) items.push_back({3, N, c});
   for (uint64_t N : (th ? std::vector<uint64_t>{16, 8, 4, 2} : std::vector<uint64_t>{8, 4, 2})) for (auto& c : cf) items.push_back({1, N, c});
   ctx.parallel(items.size(), [&](uint64_t i) {
     const It& it = items[i];
     if (it.kind == 0) run_box(ctx, it.N, it.cfg, th ? 6 : 4, 5);
+    else if (it.kind == 3) run_box(ctx, it.N, it.cfg, 3, 4);
     else if (it.kind == 1) run_basis(ctx, it.N, it.cfg, 3);
     else run_large(ctx, it.N, it.cfg);
   });
